@@ -1,6 +1,7 @@
 import Lean.Data.Json
 import SpoxModel.Model.Prog
 import SpoxModel.Model.ProgUsed
+import SpoxModel.Model.Containers
 /-!
 Line-protocol handler for C01: the model side of the translation validation.
 
@@ -85,7 +86,29 @@ partial def parseEN (j : Json) : Except String ENode := do
   return .mk id subs
 end
 
+/-- `{"events": [[0, l, [v…]] | [1, l] …]}` → `{"snapshots": [[v…]…]}` (Model/Containers.lean): the operands the
+    constructed nodes must have, given what the caller did to its list objects and when the calls happened. -/
+def parseEv (j : Json) : Except String Containers.Ev := do
+  let a ← j.getArr?
+  let tag ← (a.getD 0 Json.null).getNat?
+  let l ← (a.getD 1 Json.null).getNat?
+  if tag == 0 then
+    return Containers.Ev.set l (← parseNats (a.getD 2 Json.null))
+  else
+    return Containers.Ev.call l
+
+def handleEvents (evs : Json) : Json :=
+  match (do
+    let arr ← evs.getArr?
+    let es ← arr.toList.mapM parseEv
+    return Json.mkObj [("snapshots", toJson (Containers.snapshots es (fun _ => [])))]) with
+  | .ok j => j
+  | .error e => Json.mkObj [("error", e)]
+
 def handle (req : Json) : Json :=
+  match req.getObjVal? "events" with
+  | .ok evs => handleEvents evs
+  | .error _ =>
   match (do
     let nodesJ ← req.getObjValAs? (Array Json) "nodes"
     let nodes ← nodesJ.toList.mapM parseNode
